@@ -563,6 +563,15 @@ func x5VerdictBehaviour(fn *ssa.Function, verdictCall func(ssa.Instruction) bool
 	isWrite := isCallNamed("rejectInPlace", "Write", "WriteMsg", "stage")
 	type st struct{ reached, rej bool }
 	states := map[*x5Interp]*st{}
+	// screening helper: the header accept was extracted into an unexported function that
+	// reports whether the job goes on to the handler (its callers serve behind the true edge);
+	// "goes on" then stands for "served"
+	helperMode := false
+	if res := fn.Signature.Results(); res.Len() == 1 && len(instrsWhere(fn, isServe)) == 0 && !token.IsExported(fn.Name()) {
+		if b, ok := res.At(0).Type().Underlying().(*types.Basic); ok && b.Kind() == types.Bool {
+			helperMode = true
+		}
+	}
 	bad := x5Paths(Point{fn.Blocks[0], 0}, resolve, nil, 4096, func(it *x5Interp) func(ssa.Instruction) bool {
 		s := &st{}
 		states[it] = s
@@ -596,6 +605,11 @@ func x5VerdictBehaviour(fn *ssa.Function, verdictCall func(ssa.Instruction) bool
 		sig.reached = true
 		if !s.rej {
 			sig.rejectEvery = false
+		}
+		if helperMode {
+			if r, ok := end.(*ssa.Return); ok && len(r.Results) == 1 && !IsConstBool(false)(Desc(r.Results[0])) {
+				sig.serve = true
+			}
 		}
 		return true
 	})
